@@ -375,7 +375,9 @@ impl Readable for SlatepackBin {
 					return Err(ser::Error::CorruptedData);
 				}
 			};
-			bytes_to_payload -= len;
+			bytes_to_payload = bytes_to_payload
+				.checked_sub(len)
+				.ok_or(ser::Error::CorruptedData)?;
 			Some(addr)
 		} else {
 			None
@@ -596,7 +598,9 @@ impl Readable for SlatepackEncMetadataBin {
 
 		// optional content flags (2)
 		let opt_flags = reader.read_u16()?;
-		bytes_remaining -= 2;
+		bytes_remaining = bytes_remaining
+			.checked_sub(2)
+			.ok_or(ser::Error::CorruptedData)?;
 
 		let sender = if opt_flags & 0x01 > 0 {
 			let addr = SlatepackAddress::read(reader)?;
@@ -607,7 +611,9 @@ impl Readable for SlatepackEncMetadataBin {
 					return Err(ser::Error::CorruptedData);
 				}
 			};
-			bytes_remaining -= len;
+			bytes_remaining = bytes_remaining
+				.checked_sub(len)
+				.ok_or(ser::Error::CorruptedData)?;
 			Some(addr)
 		} else {
 			None
@@ -617,7 +623,9 @@ impl Readable for SlatepackEncMetadataBin {
 		if opt_flags & 0x02 > 0 {
 			// number of recipients
 			let count = reader.read_u16()?;
-			bytes_remaining -= 2;
+			bytes_remaining = bytes_remaining
+				.checked_sub(2)
+				.ok_or(ser::Error::CorruptedData)?;
 			for _ in 0..count {
 				let addr = SlatepackAddress::read(reader)?;
 				let len = match addr.encoded_len() {
@@ -627,7 +635,9 @@ impl Readable for SlatepackEncMetadataBin {
 						return Err(ser::Error::CorruptedData);
 					}
 				};
-				bytes_remaining -= len;
+				bytes_remaining = bytes_remaining
+					.checked_sub(len)
+					.ok_or(ser::Error::CorruptedData)?;
 				recipients.push(addr);
 			}
 		}
